@@ -86,8 +86,19 @@ impl<T> SessionTask<T> where T: RequestHandler {
 //@|    ensures final(self).handlers == old(self).handlers, final(self).auth == old(self).auth, final(self).writer == old(self).writer, final(self).reader == old(self).reader,
 //@loop 0|            invariant self.handlers == old(self).handlers, self.auth == old(self).auth, self.writer == old(self).writer, self.reader == old(self).reader,
 
-//@fn rodbus/src/server/task.rs | SessionTask<T>::sleep_for | tags=C14,C15 | ext_body
+    // process_commands dropped at one of its await points (the timer of sleep_for won): what holds is its loop invariant
+    #[verifier::external_body]
+    pub fn cancelled_process_commands(&mut self)
+        ensures final(self).handlers == old(self).handlers, final(self).auth == old(self).auth, final(self).writer == old(self).writer, final(self).reader == old(self).reader,
+    { unimplemented!() }
+//@trusted SessionTask::cancelled_process_commands: a cancelled process_commands leaves the state allowed by its (proved) loop invariant
+
+// [C14] the RTU server waits exactly the delay it was given before the port is opened again - unless shutdown arrives first
+//@fn rodbus/src/server/task.rs | SessionTask<T>::sleep_for | tags=C14,C15 | r21
 //@|    ensures final(self).handlers == old(self).handlers, final(self).auth == old(self).auth, final(self).writer == old(self).writer, final(self).reader == old(self).reader,
+//@entry| broadcast use crate::axiom_nanos_nonneg; let ghost t0 = clk__.t; let ghost mut waited = false;
+//@timer 0| waited = true; assert(clk__.t == t0 + crate::nanos(duration));
+//@exit *| assert(r__ is Ok ==> waited);
 
 // [C20] a decode-level change touches nothing but the level; [C15] Shutdown ends the session
 //@fn rodbus/src/server/task.rs | SessionTask<T>::apply_command | tags=C15,C20
